@@ -73,7 +73,14 @@ Step ==
        [] e.ev = "E2E" ->
             \* real SourceControl + real RunClientUpdater: after the updater's delayed save the file holds, for every
             \* persistent topic looked at, the last value clients were told (topics = <<topic, published, saved>>)
-            /\ Report(l, Iff(Len(e.topics) = 0 \/ \E i \in 1..Len(e.topics) : e.topics[i][2] # e.topics[i][3], "C16_saved"), e.scen)
+            \* where the session's configuration directory was then started for real (complete start-up in a process of its
+            \* own): the start-up must survive what this dastard saved, and tell clients the configurations the sources had
+            \* ACCEPTED (a request that a source refused is not its configuration)
+            /\ Report(l, Iff(Len(e.topics) = 0 \/ \E i \in 1..Len(e.topics) : e.topics[i][2] # e.topics[i][3], "C16_saved")
+                         \cup Iff("startup" \in DOMAIN e /\ e.startup.panic # "", "C16_startup_reads_saved")
+                         \cup Iff("startup" \in DOMAIN e /\ e.startup.panic = "" /\
+                                  (\E t \in DOMAIN e.accepted : t \notin DOMAIN e.startup.restored \/ e.startup.restored[t] # e.accepted[t]), "C16_restored_same")
+                         \cup Iff(Len(e.notrefused) > 0, "C16_refused"), e.scen)
             /\ UNCHANGED <<scen, last, old, new, crashed, sent, saved>>
        [] e.ev = "End" -> UNCHANGED <<scen, last, old, new, crashed, sent, saved>>
 
